@@ -154,6 +154,7 @@ def decryptParsed (d x1 y1 : Nat) (c3 c2 : Bytes) : Option Bytes :=
 /-- decryption (§7.1): `none` = error -/
 def decrypt (d : Nat) (ct : Bytes) (ord : Order) : Option Bytes :=
   if ct.length < 97 then none
+  else if ct.head? ≠ some 0x04 then none      -- C1 is an uncompressed point, PC = 04 (as repaired: the octet is checked)
   else
     let (x1, y1, c3, c2) := parseCt ct ord
     decryptParsed d x1 y1 c3 c2
